@@ -130,6 +130,9 @@ func C13(c *ev.Ctx) {
 				}
 			}
 		}
+		if i%5 == 0 && len(cs.Inc) >= 2 {
+			tightLimits(c, rig, q, info.AnchorString, cls, cs.Batch)
+		}
 		mu.Lock()
 		if multiType(cs.Batch) {
 			nt++
@@ -143,8 +146,67 @@ func C13(c *ev.Ctx) {
 	c.Cov.Evaluations = int64(len(cases))
 	c.Cov.DistinctNontrivial = nt
 	c.Cov.Exhaustive = true
-	c.Cov.Rule = "every batch of <= MaxBatch queued operations over 3 suffixes x 4 types x expired flag (TLC: RoundTrip, Accounting, CountAgrees, OrderCRUD on the specification); each batch is concretised into client-built requests (anchor origins embedded), written by the real OperationHandler into a CAS and read back by the real OperationProvider; compared position by position with Expected(batch): type, suffix, JSON-equal request, anchor origin, anchor count, included/deferred/expired accounting. Non-trivial: >= 2 types or a repeated suffix."
+	c.Cov.Rule = "every batch of <= MaxBatch queued operations over 3 suffixes x 4 types x expired flag (TLC: RoundTrip, Accounting, CountAgrees, OrderCRUD on the specification); each batch is concretised into client-built requests (anchor origins embedded), written by the real OperationHandler into a CAS and read back by the real OperationProvider; compared position by position with Expected(batch): type, suffix, JSON-equal request, anchor origin, anchor count, included/deferred/expired accounting; every fifth batch is written again under per-file size limits just below what it needs (BatchFiles!LimitClasses) and what is anchored then must be readable under those limits. Non-trivial: >= 2 types or a repeated suffix."
 	c.Finish("model_checking")
+}
+
+// tightLimits: BatchFiles!LimitClasses "tight:f".  For every file of the written transaction whose size exceeds what a
+// batch of any single one of the operations needs, the batch is written again under a protocol whose limit for that file
+// type is one byte below the size just written: whatever the writer then anchors has to be readable under that protocol.
+func tightLimits(c *ev.Ctx, rig *bf.Rig, q []*operation.QueuedOperation, anchor, cls string, batch []bf.Op) {
+	fs, err := rig.Locate(anchor)
+	if err != nil {
+		return
+	}
+	sizes := func(r *bf.Rig, f *bf.FileSet) map[string]int {
+		return map[string]int{"coreIndex": len(r.CAS.M[f.CoreIndex]), "coreProof": len(r.CAS.M[f.CoreProof]), "provIndex": len(r.CAS.M[f.ProvIndex]),
+			"provProof": len(r.CAS.M[f.ProvProof]), "chunk": len(r.CAS.M[f.Chunk])}
+	}
+	whole := sizes(rig, fs)
+	single := map[string]int{}
+	for _, one := range q {
+		r1 := bf.NewRig(rig.Params)
+		i1, err := r1.Handler.PrepareTxnFiles([]*operation.QueuedOperation{one})
+		if err != nil {
+			continue
+		}
+		f1, err := r1.Locate(i1.AnchorString)
+		if err != nil {
+			continue
+		}
+		for k, v := range sizes(r1, f1) {
+			if v > single[k] {
+				single[k] = v
+			}
+		}
+	}
+	for _, file := range []string{"coreIndex", "coreProof", "provIndex", "provProof", "chunk"} {
+		if whole[file] == 0 || whole[file]-1 < single[file] {
+			continue
+		}
+		params := rig.Params
+		limit := uint(whole[file] - 1)
+		switch file {
+		case "coreIndex":
+			params.MaxCoreIndexFileSize = limit
+		case "coreProof", "provProof":
+			params.MaxProofFileSize = limit
+		case "provIndex":
+			params.MaxProvisionalIndexFileSize = limit
+		case "chunk":
+			params.MaxChunkFileSize = limit
+		}
+		r2 := bf.NewRig(params)
+		info, err := r2.Handler.PrepareTxnFiles(q)
+		c.Cov.Evaluations++
+		if err != nil {
+			continue // nothing was anchored
+		}
+		if _, rerr := r2.Provider.GetTxnOperations(&txn.SidetreeTxn{AnchorString: info.AnchorString, Namespace: "did:sidetree"}); rerr != nil {
+			c.Violation("batch-roundtrip:written-file-exceeds-the-limit-the-reader-enforces", map[string]interface{}{"batch": batch, "class": cls, "file": file,
+				"limit_of_the_protocol_version": limit, "size_written": whole[file], "largest_size_for_a_single_operation": single[file], "reader_error": rerr.Error()})
+		}
+	}
 }
 
 func multiType(b []bf.Op) bool {
